@@ -1,0 +1,52 @@
+//! Verification hooks (only compiled with the `verif-hooks` cargo feature).
+//!
+//! A process-wide probe can be installed by an external verification harness.
+//! The crate calls [`at`] just before every access to state that is shared
+//! between the caller thread and the `FlushWorker` thread (channel, payload
+//! cache lock, `done_seq`, callbacks). With no probe installed every hook is
+//! a no-op, and with the feature off this module does not exist.
+
+use std::sync::Arc;
+use std::sync::RwLock;
+
+/// Receives a notification before each shared access.
+///
+/// `point` names the access, `a` carries one point-specific number (request
+/// kind, batch size, ...). The probe may block the calling thread; it must
+/// not call back into the crate.
+pub trait Probe: Send + Sync {
+    fn at(&self, point: &'static str, a: u64);
+}
+
+static PROBE: RwLock<Option<Arc<dyn Probe>>> = RwLock::new(None);
+
+/// Install (or remove, with `None`) the process-wide probe.
+pub fn install(probe: Option<Arc<dyn Probe>>) {
+    *PROBE.write().unwrap() = probe;
+}
+
+#[inline]
+pub(crate) fn at(point: &'static str, a: u64) {
+    let p = PROBE.read().unwrap().clone();
+    if let Some(p) = p {
+        p.at(point, a);
+    }
+}
+
+/// Calls `at(point_on_drop, a)` when dropped, also when unwinding.
+pub(crate) struct ExitGuard {
+    pub(crate) point: &'static str,
+    pub(crate) a: u64,
+}
+
+impl Drop for ExitGuard {
+    fn drop(&mut self) {
+        at(self.point, self.a);
+    }
+}
+
+/// Request kinds reported by the `caller.send` / `worker.nonflush` hooks.
+pub const REQ_WRITE: u64 = 1;
+pub const REQ_APPEND_FILE: u64 = 2;
+pub const REQ_REMOVE_CHUNKS: u64 = 3;
+pub const REQ_GET_STAT: u64 = 4;
